@@ -240,3 +240,41 @@ do_match_multiple!(dmm_u8, u8);
 do_match_multiple!(dmm_u16, u16);
 do_match_multiple!(dmm_u32, u32);
 do_match_multiple!(dmm_u64, u64);
+
+// ---- number count forms: RangeNumber::from_i64 / from_u64 / from_f64 (serde visitors of counts) -----
+// An integer count written as a JSON/YAML number is accepted exactly when it is a value of the range
+// type, and then denotes that value; a float literal is never accepted for an integer range.
+macro_rules! int_count_forms {
+    ($($name:ident : $t:ty),*) => {$(
+        #[kani::proof]
+        fn $name() {
+            let i: i64 = kani::any();
+            match <$t as RangeNumber>::from_i64(i) {
+                Some(x) => assert!(x as i128 == i as i128),
+                None => assert!((i as i128) < (<$t>::MIN as i128) || (i as i128) > (<$t>::MAX as i128)),
+            };
+            let u: u64 = kani::any();
+            match <$t as RangeNumber>::from_u64(u) {
+                Some(x) => assert!(x as i128 == u as i128),
+                None => assert!((u as i128) > (<$t>::MAX as i128)),
+            };
+            let f: f64 = kani::any();
+            assert!(<$t as RangeNumber>::from_f64(f).is_none());
+        }
+    )*};
+}
+int_count_forms!(count_forms_i8: i8, count_forms_i16: i16, count_forms_i32: i32, count_forms_i64: i64,
+    count_forms_u8: u8, count_forms_u16: u16, count_forms_u32: u32, count_forms_u64: u64);
+
+/// f64 ranges take a float literal unchanged (bit for bit) and an integer literal as Rust's `as f64`
+#[kani::proof]
+fn count_forms_f64() {
+    let f: f64 = kani::any();
+    assert!(<f64 as RangeNumber>::from_f64(f).map(f64::to_bits) == Some(f.to_bits()));
+    let i: i64 = kani::any();
+    assert!(<f64 as RangeNumber>::from_i64(i) == Some(i as f64));
+    // integers up to 2^53 are represented exactly
+    if i.unsigned_abs() <= (1u64 << 53) {
+        assert!(<f64 as RangeNumber>::from_i64(i).unwrap() as i64 == i);
+    }
+}
